@@ -8,8 +8,9 @@
 
    [urljoin] is modelled for the class of URLs the document graphs of the
    check use:  scheme "://" host "/" seg "/" ... "/" file  with no query,
-   fragment or parameters, and relative references made of plain segments,
-   ".", ".." and an optional leading "/".  For a base whose scheme is not a
+   parameters; an optional "?query" and "#fragment" on both sides; relative
+   references made of plain segments, ".", ".." and an optional leading "/",
+   or only "?query" / "#fragment".  For a base whose scheme is not a
    hierarchical one known to urllib ("http", "https") urljoin returns the
    reference unchanged (this is what happens with the "suds" scheme).
    The harness compares [join] with urllib's urljoin on every (base,
@@ -83,6 +84,29 @@ Definition suds_scheme : str := [115; 117; 100; 115]%N.
 
 Definition hierarchical (scheme : str) : bool := str_eqb scheme http || str_eqb scheme https.
 
+(* query string and fragment *)
+Definition ch_quest : N := 63.
+Definition ch_hash : N := 35.
+
+Fixpoint split_char (c : N) (s : str) : str * option str :=      (* at the first c *)
+  match s with
+  | [] => ([], None)
+  | x :: s' => if N.eqb x c then ([], Some s')
+               else let '(a, b) := split_char c s' in (x :: a, b)
+  end.
+
+(* path, query, fragment of a reference (or of what follows "://") *)
+Definition parse_ref (s : str) : str * option str * option str :=
+  let '(s1, frag) := split_char ch_hash s in
+  let '(p, q) := split_char ch_quest s1 in
+  (p, q, frag).
+
+Definition unparse_tail (q f : option str) : str :=
+  (match q with Some (c :: q') => ch_quest :: c :: q' | _ => [] end) ++
+  (match f with Some (c :: f') => ch_hash :: c :: f' | _ => [] end).
+
+Definition nonempty (q : option str) : bool := match q with Some (_ :: _) => true | _ => false end.
+
 Definition resolve (base loc : str) : str :=
   match split_scheme base with
   | None => loc
@@ -91,15 +115,21 @@ Definition resolve (base loc : str) : str :=
       else match loc with
       | [] => base
       | _ =>
-        match split_slash rest with
-        | [] => loc
-        | host :: path =>
-            let segs := match loc with
-                        | c :: loc' => if N.eqb c ch_slash then split_slash loc'
-                                       else removelast path ++ split_slash loc
-                        | [] => path
-                        end in
-            scheme ++ sep ++ host ++ ch_slash :: join_slash (normalise [] segs)
+        let '(bpath, bq, bf) := parse_ref rest in
+        let '(lpath, lq, lf) := parse_ref loc in
+        match lpath with
+        | [] =>
+            (* a reference that is only "?query" and/or "#fragment": same path;
+               the base's query unless the reference has its own *)
+            scheme ++ sep ++ bpath ++ unparse_tail (if nonempty lq then lq else bq) lf
+        | c :: lpath' =>
+          match split_slash bpath with
+          | [] => loc
+          | host :: path =>
+              let segs := if N.eqb c ch_slash then split_slash lpath'
+                          else removelast path ++ split_slash lpath in
+              scheme ++ sep ++ host ++ ch_slash :: join_slash (normalise [] segs) ++ unparse_tail lq lf
+          end
         end
       end
   end.
